@@ -20,7 +20,10 @@ CONFIG_FAULTS = ["unknown-section", "missing-pipeline", "unknown-tag", "python-t
 
 def _sim_element(rng, kind, idx, forms):
     var = rng.choice(VARIANTS)
-    return {"cls": SIM_KINDS[kind] + var, "sim": True, "service": var != "Plain", "flavour": {"Trio": "trio", "Asyncio": "asyncio", "Thread": "threading"}.get(var), "name": "e%d" % idx, "form": rng.choice(forms), "hb": rng.choice([0.25, 0.5, 1.0])}
+    e = {"cls": SIM_KINDS[kind] + var, "sim": True, "service": var != "Plain", "flavour": {"Trio": "trio", "Asyncio": "asyncio", "Thread": "threading"}.get(var), "name": "e%d" % idx, "form": rng.choice(forms), "hb": rng.choice([0.25, 0.5, 1.0])}
+    if var in ("Trio", "Asyncio") and rng.random() < 0.3:
+        e["park"] = True  # idles on an awaitable nobody else references until it is cancelled
+    return e
 
 
 def gen(seed, tier):
@@ -69,7 +72,7 @@ def gen(seed, tier):
     t_sig = rng.choice([1.5, 2.0, 3.0, 4.5, 7.0])
     dscript = [["sleep", t_sig], ["sigint"]]
     gcs = []
-    if rng.random() < 0.5:
+    if rng.random() < 0.6:
         gcs = [{"id": "g0", "script": [["wait-marker", "constructed"]] + [x for _ in range(rng.randint(1, 4)) for x in (["gc"], ["sleep", rng.choice([0.0, 0.05, 0.3, 1.0])])]}]
     knobs["horizon"] = 40.0
     return {"prop": "C13", "seed": seed, "knobs": knobs, "format": fmt, "elements": elems, "fault": fault, "extras": extras, "drivers": [{"id": "d0", "script": dscript}] + gcs, "t_sig": t_sig, "payloads": [], "cli": rng.choice([[], ["--log-level", "DEBUG"], ["--log-journal"], ["--log-target", "@file"]])}
@@ -79,6 +82,8 @@ def gen(seed, tier):
 def _kwargs(e, fault_here):
     if e["sim"]:
         kw = {"name": e["name"], "hb": e["hb"]}
+        if e.get("park"):
+            kw["park"] = True
         if fault_here and fault_here["kind"] == "config" and fault_here["what"] == "ctor-raises":
             kw["fail_init"] = True
         if fault_here and fault_here["kind"] == "service":
@@ -113,7 +118,7 @@ TYPE_PATH = {
     "Logger": "cobald.decorator.logger.Logger",
     "Standardiser": "cobald.decorator.standardiser.Standardiser",
 }
-SEQ_ORDER = {"sim": ["name", "hb", "fail_init", "fail_after", "fail_kind"], "LinearController": None, "RelativeSupplyController": None, "Buffer": ["window"], "Logger": ["name"], "Standardiser": ["minimum"]}
+SEQ_ORDER = {"sim": ["name", "hb", "fail_init", "fail_after", "fail_kind", "park"], "LinearController": None, "RelativeSupplyController": None, "Buffer": ["window"], "Logger": ["name"], "Standardiser": ["minimum"]}
 
 
 def render_yaml(sc):
@@ -144,7 +149,7 @@ def render_yaml(sc):
                 continue
             if form == "tag-seq":
                 order = SEQ_ORDER["sim"] if e["sim"] else SEQ_ORDER.get(e["cls"])
-                if order is None or any(k not in order for k in kw) or (e["sim"] and ("fail_after" in kw or "fail_init" in kw)):
+                if order is None or any(k not in order for k in kw) or (e["sim"] and ("fail_after" in kw or "fail_init" in kw or "park" in kw)):
                     form = "tag-map"
                 else:
                     vals = [kw[k] for k in order if k in kw]
@@ -395,7 +400,7 @@ def check(h, reason):
         if len(rs) > 1:
             V("C13/service-started-twice/%s" % e["flavour"], "service %s started %d times" % (e["name"], len(rs)))
         hbs = [x for x in ev if x["kind"] == "hb" and x.get("pid") == e["name"] and x["seq"] < sig["seq"]]
-        if not truncated and hbs and sig["t"] - hbs[-1]["t"] > e["hb"] + 0.1:
+        if not truncated and not e.get("park") and hbs and sig["t"] - hbs[-1]["t"] > e["hb"] + 0.1:
             V("C13/service-died/%s" % e["flavour"], "service %s last ticked %.2fs before the SIGINT (period %.2f)" % (e["name"], sig["t"] - hbs[-1]["t"], e["hb"]))
         if e["flavour"] != "threading":
             c = next((x for x in ev if x["kind"] == "cancelled" and x.get("pid") == e["name"]), None)
